@@ -30,12 +30,11 @@ LSigma == {LF, CR, A}
 Strings(S, n) == UNION {[1..k -> S] : k \in 0..n}
 
 \* ------------------------------------------------------- tiny valid records
-Ids    == IF Rich THEN {<<A>>, <<AT>>, <<GT, PLUS>>} ELSE {<<A>>, <<AT>>}
-Descs  == IF Rich THEN {<< >>, <<A>>, <<SP, A>>, <<A, SP, GT>>} ELSE {<< >>, <<A, SP, AT>>}
-FaSeqs == IF Rich THEN {<<A>>, <<A, BANG>>, <<AT, A, PLUS>>, <<A, A, BANG, A>>}
+Ids    == IF Rich THEN {<<AT>>, <<GT, PLUS>>} ELSE {<<A>>, <<AT>>}
+Descs  == IF Rich THEN {<< >>, <<SP, A>>, <<A, SP, GT>>} ELSE {<< >>, <<A, SP, AT>>}
+FaSeqs == IF Rich THEN {<<A>>, <<AT, A, PLUS>>, <<A, A, BANG, A>>}
                   ELSE {<<A>>, <<PLUS, A, AT>>}
-FqSQ   == IF Rich THEN {<<<<A>>, <<BANG>>>>, <<<<A>>, <<AT>>>>, <<<<A, A>>, <<PLUS, BANG>>>>,
-                        <<<<A, AT, A>>, <<AT, PLUS, A>>>>}
+FqSQ   == IF Rich THEN {<<<<A>>, <<AT>>>>, <<<<A, A>>, <<PLUS, BANG>>>>, <<<<A, AT, A>>, <<AT, PLUS, A>>>>}
                   ELSE {<<<<A>>, <<PLUS>>>>, <<<<A, A, A>>, <<AT, BANG, PLUS>>>>}
 MkRec(id, d, s, q) == [id |-> id, hd |-> IF d = << >> THEN 0 ELSE 1, desc |-> d, seq |-> s, qual |-> q]
 FaRecs == {MkRec(id, d, s, << >>) : id \in Ids, d \in Descs, s \in FaSeqs}
